@@ -51,12 +51,12 @@ Proof. apply escaped_path_valid. Qed.
 
 (** if the original URL had a RawPath, a valid well-formed transformed path is
     written on the wire byte for byte *)
-Lemma rewrite_wire rw u :
+Lemma rewrite_wire f rw u :
   let raw' := transform_path rw (escaped_path (u_path u) (u_rawpath u)) in
   u_rawpath u <> "" -> valid_encoded raw' = true -> wellformed raw' = true ->
-  wire_path (rewrite rw u) = raw'.
+  wire_path (rewrite_fx f rw u) = raw'.
 Proof.
-  intros raw' Hne Hv Hw. unfold wire_path, rewrite. fold raw'. cbn [u_path u_rawpath].
+  intros raw' Hne Hv Hw. unfold wire_path, rewrite_fx. fold raw'. cbn [u_path u_rawpath].
   destruct (wellformed_unescape _ Hw) as [p Hp].
   unfold unescape_or_empty. rewrite Hp.
   assert (Hrp : (if is_empty (u_rawpath u) then u_rawpath u else raw') = raw').
@@ -78,12 +78,12 @@ Proof.
     + apply unescape_escape. discriminate.
 Qed.
 
-Lemma rewrite_decoded rw u :
+Lemma rewrite_decoded f rw u :
   let raw' := transform_path rw (escaped_path (u_path u) (u_rawpath u)) in
   wellformed raw' = true ->
-  unescape (wire_path (rewrite rw u)) = unescape raw'.
+  unescape (wire_path (rewrite_fx f rw u)) = unescape raw'.
 Proof.
-  intros raw' Hw. unfold wire_path, rewrite. fold raw'. cbn [u_path u_rawpath].
+  intros raw' Hw. unfold wire_path, rewrite_fx. fold raw'. cbn [u_path u_rawpath].
   destruct (wellformed_unescape _ Hw) as [p Hp].
   rewrite escaped_path_decodes. unfold unescape_or_empty. rewrite Hp. reflexivity.
 Qed.
@@ -155,22 +155,22 @@ Qed.
 
 (** * CreateURL after ruleImpl.Execute *)
 
-Lemma create_url_wire_path b u :
+Lemma create_url_wire_path f b u :
   view_wf u ->
   valid_encoded (match b_rw b with Some rw => rw_add rw | None => "" end) = true ->
   wellformed (match b_rw b with Some rw => rw_add rw | None => "" end) = true ->
-  wire_path (create_url b u) =
+  wire_path (create_url_fx f b u) =
   match b_rw b with
   | Some rw => rw_add rw ++ strip_prefix (rw_cut rw) (u_rawpath u)
   | None => u_rawpath u
   end.
 Proof.
-  intros (Hne & Hv & Hu) Hva Hwa. unfold create_url. destruct (b_rw b) as [rw|].
+  intros (Hne & Hv & Hu) Hva Hwa. unfold create_url_fx. destruct (b_rw b) as [rw|].
   - set (up := {| u_scheme := u_scheme u; u_host := b_host b; u_path := u_path u;
                   u_rawpath := u_rawpath u; u_query := u_query u |}).
     assert (He : escaped_path (u_path up) (u_rawpath up) = u_rawpath u).
     { simpl. apply escaped_path_valid; assumption. }
-    pose proof (rewrite_wire rw up) as Hw. cbv zeta in Hw. rewrite He in Hw.
+    pose proof (rewrite_wire f rw up) as Hw. cbv zeta in Hw. rewrite He in Hw.
     rewrite transform_path_eq in Hw. apply Hw.
     + exact Hne.
     + rewrite valid_encoded_app, Hva. apply strip_prefix_valid. exact Hv.
@@ -189,7 +189,7 @@ Theorem wire_path_exact fx r u t :
   wire_path t = expected_path r u.
 Proof.
   intros Hwf Hon Hva Hwa He. unfold expected_path, original_path, cfg_add, cfg_strip in *.
-  assert (Ht : t = create_url (r_backend r) u).
+  assert (Ht : t = create_url_fx (fx_f1 fx) (r_backend r) u).
   { unfold execute in He. destruct (r_setting r); try congruence.
     destruct (has_enc_slash (fx_c08f2 fx) (u_rawpath u)); congruence. }
   subst t. rewrite create_url_wire_path by assumption.
@@ -226,14 +226,21 @@ Proof. unfold upstream_headers. rewrite h_has_fold_add. reflexivity. Qed.
 Lemma nodup_upstream_headers pl : NoDup (keys (upstream_headers pl)).
 Proof. unfold upstream_headers. apply nodup_fold_add. constructor. Qed.
 
-(** the loop over the pipeline's headers: its first value for the name, else what was there *)
-Lemma pipeline_headers_set pl k h :
-  h_values k (set_pipeline_headers (upstream_headers pl) h) =
-  match pipeline_value (p_headers pl) k with Some v => [v] | None => h_values k h end.
+Lemma pipeline_values_nil all hs k :
+  is_nil (pipeline_values all hs k) = is_nil (line_values k hs).
+Proof.
+  unfold pipeline_values. rewrite pipeline_value_lines. destruct all; destruct (line_values k hs); reflexivity.
+Qed.
+
+(** the loop over the pipeline's headers: its values for the name, else what was there *)
+Lemma pipeline_headers_set all pl k h :
+  h_values k (set_pipeline_headers all (upstream_headers pl) h) =
+  if is_nil (pipeline_values all (p_headers pl) k) then h_values k h else pipeline_values all (p_headers pl) k.
 Proof.
   rewrite h_values_set_pipeline by apply nodup_upstream_headers.
-  rewrite upstream_headers_has, upstream_headers_values, pipeline_value_lines.
-  destruct (line_values k (p_headers pl)); reflexivity.
+  rewrite upstream_headers_has, upstream_headers_values, pipeline_values_nil.
+  unfold pipeline_values. rewrite pipeline_value_lines.
+  destruct (line_values k (p_headers pl)); destruct all; reflexivity.
 Qed.
 
 Lemma upstream_host pl : h_get "Host" (upstream_headers pl) =
@@ -308,39 +315,60 @@ Proof.
 Qed.
 
 (** the header map handed to the HTTP client is, name by name, what the
-    specification says WITH the forwarded block having the last word *)
-Theorem rewrite_request_values q pl th k : k <> "Host" ->
-  h_values k (snd (rewrite_request q pl th)) = handed_over false q pl k.
+    specification says; who has the last word on a forwarding header the pipeline
+    itself produced depends on the order of the two blocks (C15-F4) *)
+Theorem rewrite_request_values fx q pl th k : k <> "Host" ->
+  h_values k (snd (rewrite_request fx q pl th)) = handed_over (fx_c13f3 fx) (fx_f4 fx) q pl k.
 Proof.
   intro Hk. unfold rewrite_request. cbv zeta. cbn [snd].
-  rewrite forwarded_block_values. unfold handed_over.
+  set (pvs := pipeline_values (fx_c13f3 fx) (p_headers pl)).
+  set (h1 := h_del_all ["X-Forwarded-Method"; "X-Forwarded-Uri"; "X-Forwarded-Path"]
+               (strip_forwarding (remove_hop_by_hop (in_headers q)))).
+  set (h1' := if fx_f4 fx then forwarded_block (in_headers q) (q_host q) (q_peer q) h1 else h1).
+  set (h2 := set_pipeline_headers (fx_c13f3 fx) (upstream_headers pl) h1').
+  set (h3 := if is_empty (h_get "Host" (upstream_headers pl)) then h2 else h_del "Host" h2).
+  assert (H1' : forall k', h_values k' h1' =
+                if fx_f4 fx then match forwarding_value q k' with Some v => [v] | None => passed_on (in_headers q) k' end
+                else passed_on (in_headers q) k').
+  { intro k'. unfold h1'. destruct (fx_f4 fx).
+    - rewrite forwarded_block_values. unfold h1. rewrite passed_on_values. reflexivity.
+    - unfold h1. apply passed_on_values. }
+  assert (H3 : forall k', k' <> "Host" -> h_values k' h3 = if is_nil (pvs k') then h_values k' h1' else pvs k').
+  { intros k' Hk'. unfold h3. destruct (is_empty (h_get "Host" (upstream_headers pl))).
+    - unfold h2. rewrite pipeline_headers_set. reflexivity.
+    - rewrite h_values_del. rewrite str_eqb_neq by congruence.
+      unfold h2. rewrite pipeline_headers_set. reflexivity. }
+  (* the cookies *)
+  assert (H4 : h_values k (fold_left add_cookie (sort_cookies (p_cookies pl)) h3) =
+               if String.eqb k "Cookie" && negb (is_nil (p_cookies pl))
+               then [join_cookies (first_or_empty (h_values k h3)) (sort_cookies (p_cookies pl))]
+               else h_values k h3).
+  { destruct (String.eqb k "Cookie") eqn:Ec.
+    - apply String.eqb_eq in Ec. subst k. simpl andb.
+      destruct (sort_cookies (p_cookies pl)) as [|c cs] eqn:Es.
+      + assert (Hnil : p_cookies pl = []) by (apply sort_cookies_nil; exact Es).
+        rewrite Hnil. reflexivity.
+      + assert (Hnn : is_nil (p_cookies pl) = false).
+        { destruct (p_cookies pl); [discriminate | reflexivity]. }
+        rewrite Hnn. simpl negb. cbv iota.
+        rewrite join_cookies_fold by discriminate. rewrite h_get_values. reflexivity.
+    - simpl andb. cbv iota. apply h_values_add_cookies_other. rewrite str_eqb_sym. exact Ec. }
+  unfold handed_over. fold pvs.
   destruct (forwarding_value q k) as [fv|] eqn:Ef.
   - (* a forwarding name: not Cookie *)
     pose proof (forwarding_value_name _ _ _ Ef) as Hn.
     assert (Hc : String.eqb k "Cookie" = false).
     { destruct (String.eqb k "Cookie") eqn:E; [|reflexivity]. apply String.eqb_eq in E. subst k. discriminate. }
-    rewrite Hc. reflexivity.
-  - set (h2 := set_pipeline_headers (upstream_headers pl)
-                 (h_del_all ["X-Forwarded-Method"; "X-Forwarded-Uri"; "X-Forwarded-Path"]
-                    (strip_forwarding (remove_hop_by_hop (in_headers q))))).
-    set (h3 := if is_empty (h_get "Host" (upstream_headers pl)) then h2 else h_del "Host" h2).
-    assert (H3 : forall k', k' <> "Host" -> h_values k' h3 =
-                 match pipeline_value (p_headers pl) k' with Some v => [v] | None => passed_on (in_headers q) k' end).
-    { intros k' Hk'. unfold h3. destruct (is_empty (h_get "Host" (upstream_headers pl))).
-      - unfold h2. rewrite pipeline_headers_set, passed_on_values. reflexivity.
-      - rewrite h_values_del. rewrite str_eqb_neq by congruence.
-        unfold h2. rewrite pipeline_headers_set, passed_on_values. reflexivity. }
-    destruct (String.eqb k "Cookie") eqn:Ec.
-    + apply String.eqb_eq in Ec. subst k. simpl andb.
-      destruct (sort_cookies (p_cookies pl)) as [|c cs] eqn:Es.
-      * assert (Hnil : p_cookies pl = []) by (apply sort_cookies_nil; exact Es).
-        rewrite Hnil. simpl. rewrite H3 by discriminate. reflexivity.
-      * assert (Hnn : is_nil (p_cookies pl) = false).
-        { destruct (p_cookies pl); [discriminate | reflexivity]. }
-        rewrite Hnn. simpl negb. cbv iota.
-        rewrite join_cookies_fold by discriminate. rewrite h_get_values, H3 by discriminate. reflexivity.
-    + simpl andb. cbv iota. rewrite h_values_add_cookies_other by (rewrite str_eqb_sym; exact Ec).
-      apply H3. exact Hk.
+    rewrite Hc in *. cbn [andb] in *. destruct (fx_f4 fx) eqn:E4.
+    + rewrite H4, H3 by exact Hk. rewrite H1', Ef. cbn [andb]. destruct (is_nil (pvs k)); reflexivity.
+    + rewrite forwarded_block_values, Ef. reflexivity.
+  - assert (Hend : h_values k (if fx_f4 fx then fold_left add_cookie (sort_cookies (p_cookies pl)) h3
+                               else forwarded_block (in_headers q) (q_host q) (q_peer q)
+                                      (fold_left add_cookie (sort_cookies (p_cookies pl)) h3)) =
+                   h_values k (fold_left add_cookie (sort_cookies (p_cookies pl)) h3)).
+    { destruct (fx_f4 fx); [reflexivity|]. rewrite forwarded_block_values, Ef. reflexivity. }
+    rewrite Hend, H4, H3 by exact Hk. rewrite H1', Ef.
+    destruct (fx_f4 fx); reflexivity.
 Qed.
 
 (** * http.Transport and the sorted report *)
@@ -398,8 +426,8 @@ Lemma serve_forwarded fx q pl r tls m uri host hs body :
     (u_scheme t = "http" \/ u_scheme t = "https") /\
     tls = String.eqb (u_scheme t) "https" /\ tls = r_up_tls r /\
     m = view_method q /\ uri = wire_uri t /\
-    host = fst (rewrite_request q pl (u_host t)) /\
-    hs = h_sort (on_the_wire m (snd (rewrite_request q pl (u_host t)))) /\
+    host = fst (rewrite_request fx q pl (u_host t)) /\
+    hs = h_sort (on_the_wire m (snd (rewrite_request fx q pl (u_host t)))) /\
     body = q_body q.
 Proof.
   unfold serve. destruct (view_url q) as [u|]; [|discriminate].
@@ -408,17 +436,17 @@ Proof.
     cbn [orb negb]; try discriminate.
   - exfalso. apply String.eqb_eq in E1. apply String.eqb_eq in E2. rewrite E1 in E2. discriminate E2.
   - destruct (r_up_tls r) eqn:Et; cbn [Bool.eqb negb]; [discriminate|].
-    destruct (rewrite_request q pl (u_host t)) as [hh h] eqn:Er. intro H. inversion H; subst.
+    destruct (rewrite_request fx q pl (u_host t)) as [hh h] eqn:Er. intro H. inversion H; subst.
     exists u, t. apply String.eqb_eq in E1. rewrite Er. splits; auto.
   - destruct (r_up_tls r) eqn:Et; cbn [Bool.eqb negb]; [|discriminate].
-    destruct (rewrite_request q pl (u_host t)) as [hh h] eqn:Er. intro H. inversion H; subst.
+    destruct (rewrite_request fx q pl (u_host t)) as [hh h] eqn:Er. intro H. inversion H; subst.
     exists u, t. pose proof E2 as E2'. apply String.eqb_eq in E2. rewrite Er. splits; auto.
 Qed.
 
 (** every field the upstream sees, name by name *)
 Theorem serve_headers fx q pl r tls m uri host hs body k :
   serve fx q pl r = Forwarded tls m uri host hs body -> k <> "Host" ->
-  h_values k hs = expected_values false q pl m k.
+  h_values k hs = expected_values (fx_c13f3 fx) (fx_f4 fx) q pl m k.
 Proof.
   intros H Hk. destruct (serve_forwarded _ _ _ _ _ _ _ _ _ _ H) as (u & t & _ & _ & _ & _ & _ & Hm & _ & _ & Hhs & _).
   subst hs. rewrite h_values_sort by (apply nodup_on_the_wire; apply nodup_rewrite_request).
@@ -433,8 +461,8 @@ Proof.
   subst host. unfold rewrite_request. cbv zeta. cbn [fst]. rewrite upstream_host. unfold expected_host.
   assert (Ht : u_host t = b_host (r_backend r)).
   { unfold execute in He.
-    assert (Hc : forall x, u_host (create_url (r_backend r) x) = b_host (r_backend r)).
-    { intro x. unfold create_url. destruct (b_rw (r_backend r)); reflexivity. }
+    assert (Hc : forall x, u_host (create_url_fx (fx_f1 fx) (r_backend r) x) = b_host (r_backend r)).
+    { intro x. unfold create_url_fx. destruct (b_rw (r_backend r)); reflexivity. }
     destruct (r_setting r); try (inversion He; apply Hc).
     destruct (has_enc_slash (fx_c08f2 fx) (u_rawpath u)); [discriminate|]. inversion He. apply Hc. }
   rewrite Ht. destruct (pipeline_value (p_headers pl) "Host"); reflexivity.
@@ -442,30 +470,35 @@ Qed.
 
 (** * the sentences about headers *)
 
-Lemma handed_over_pipeline q pl k v :
-  pipeline_value (p_headers pl) k = Some v -> forwarding_value q k = None ->
+Lemma handed_over_pipeline all pf q pl k :
+  pipeline_values all (p_headers pl) k <> [] -> forwarding_value q k = None ->
   (k = "Cookie" -> p_cookies pl = []) ->
-  handed_over false q pl k = [v].
+  handed_over all pf q pl k = pipeline_values all (p_headers pl) k.
 Proof.
-  intros Hp Hf Hc. unfold handed_over. rewrite Hp, Hf.
-  destruct (String.eqb k "Cookie") eqn:E; [|reflexivity].
+  intros Hp Hf Hc. unfold handed_over. rewrite Hf.
+  assert (Hn : is_nil (pipeline_values all (p_headers pl) k) = false).
+  { destruct (pipeline_values all (p_headers pl) k); [congruence | reflexivity]. }
+  rewrite Hn. destruct (String.eqb k "Cookie") eqn:E; [|reflexivity].
   apply String.eqb_eq in E. rewrite (Hc E). reflexivity.
 Qed.
 
-(** "every header produced by the pipeline replaces any same-named header sent by the client" *)
-Theorem pipeline_header_wins fx q pl r tls m uri host hs body k v :
+(** "every header produced by the pipeline replaces any same-named header sent
+    by the client": the upstream sees exactly the pipeline's values for that name *)
+Theorem pipeline_header_wins fx q pl r tls m uri host hs body k :
   serve fx q pl r = Forwarded tls m uri host hs body ->
-  pipeline_value (p_headers pl) k = Some v -> v <> "" ->
-  k <> "Host" -> (k = "Cookie" -> p_cookies pl = []) ->
+  let vs := pipeline_values (fx_c13f3 fx) (p_headers pl) k in
+  first_or_empty vs <> "" ->
+  k <> "Host" -> k <> "User-Agent" -> (k = "Cookie" -> p_cookies pl = []) ->
   forwarding_value q k = None ->
-  h_values k hs = [v].
+  h_values k hs = vs.
 Proof.
-  intros H Hp Hv Hk Hc Hf. rewrite (serve_headers _ _ _ _ _ _ _ _ _ _ k H Hk).
-  unfold expected_values. rewrite (handed_over_pipeline q pl k v Hp Hf Hc). simpl first_or_empty.
-  assert (He : is_empty v = false) by (destruct v; [congruence | reflexivity]).
-  destruct (String.eqb k "User-Agent"); [rewrite He; reflexivity|].
+  intros H vs Hv Hk Hua Hc Hf. rewrite (serve_headers _ _ _ _ _ _ _ _ _ _ k H Hk).
+  assert (Hne : vs <> []) by (intro E; rewrite E in Hv; apply Hv; reflexivity).
+  unfold expected_values. rewrite (handed_over_pipeline _ _ q pl k Hne Hf Hc). fold vs.
+  assert (He : is_empty (first_or_empty vs) = false) by (destruct (first_or_empty vs); [congruence | reflexivity]).
+  rewrite (str_eqb_neq k "User-Agent") by exact Hua.
   destruct (String.eqb k "Accept-Encoding") eqn:Ea; [|reflexivity].
-  apply String.eqb_eq in Ea. subst k. rewrite (handed_over_pipeline q pl _ v Hp Hf Hc). simpl first_or_empty.
+  apply String.eqb_eq in Ea. subst k. rewrite (handed_over_pipeline _ _ q pl _ Hne Hf Hc). fold vs.
   rewrite He. reflexivity.
 Qed.
 
@@ -494,8 +527,11 @@ Proof.
     destruct (String.eqb k "X-Forwarded-Uri") eqn:E2; [apply String.eqb_eq in E2; subst k; discriminate|].
     destruct (String.eqb k "X-Forwarded-Path") eqn:E3; [apply String.eqb_eq in E3; subst k; discriminate|].
     discriminate. }
-  assert (Hho : handed_over false q pl k = []).
-  { unfold handed_over. rewrite Hp, Hf. unfold passed_on. rewrite Hn. simpl.
+  assert (Hpv : pipeline_values (fx_c13f3 fx) (p_headers pl) k = []).
+  { unfold pipeline_values. rewrite pipeline_value_lines in Hp. rewrite pipeline_value_lines.
+    destruct (line_values k (p_headers pl)); [destruct (fx_c13f3 fx); reflexivity | discriminate]. }
+  assert (Hho : handed_over (fx_c13f3 fx) (fx_f4 fx) q pl k = []).
+  { unfold handed_over. rewrite Hpv, Hf. unfold passed_on. rewrite Hn. simpl.
     destruct (String.eqb k "Cookie") eqn:E; [|reflexivity]. apply String.eqb_eq in E. subst k. discriminate. }
   unfold expected_values. rewrite Hho.
   destruct (String.eqb k "User-Agent") eqn:E1; [apply String.eqb_eq in E1; subst k; discriminate|].
@@ -504,20 +540,25 @@ Proof.
 Qed.
 
 (** "X-Forwarded-For or Forwarded is extended by the peer address": whichever of
-    the two carries this request's forwarding information ends with the peer *)
+    the two carries this request's forwarding information ends with the peer
+    (with the repair of C15-F4: unless the pipeline itself produced that header) *)
 Theorem forwarded_extended_by_peer fx q pl r tls m uri host hs body :
   serve fx q pl r = Forwarded tls m uri host hs body ->
   let hin := in_headers q in
+  let k := if forwarding_active hin then "X-Forwarded-For" else "Forwarded" in
+  fx_f4 fx = false \/ pipeline_values (fx_c13f3 fx) (p_headers pl) k = [] ->
   if forwarding_active hin
   then h_values "X-Forwarded-For" hs = [append_peer (h_get "X-Forwarded-For" hin) (q_peer q)]
   else h_values "Forwarded" hs =
        [append_peer (h_get "Forwarded" hin) ("for=" ++ q_peer q ++ ";host=" ++ q_host q ++ ";proto=http")].
 Proof.
-  intros H hin. destruct (forwarding_active hin) eqn:Ea.
+  intros H hin k Hor. subst k. destruct (forwarding_active hin) eqn:Ea.
   - rewrite (serve_headers _ _ _ _ _ _ _ _ _ _ "X-Forwarded-For" H) by discriminate.
-    unfold expected_values, handed_over, forwarding_value. fold hin. rewrite Ea. reflexivity.
+    unfold expected_values, handed_over, forwarding_value. fold hin. rewrite Ea. cbn [String.eqb Ascii.eqb Bool.eqb andb].
+    destruct Hor as [Hor|Hor]; rewrite Hor; cbn [andb is_nil negb]; rewrite ?andb_false_r; reflexivity.
   - rewrite (serve_headers _ _ _ _ _ _ _ _ _ _ "Forwarded" H) by discriminate.
-    unfold expected_values, handed_over, forwarding_value. fold hin. rewrite Ea. reflexivity.
+    unfold expected_values, handed_over, forwarding_value. fold hin. rewrite Ea. cbn [String.eqb Ascii.eqb Bool.eqb andb].
+    destruct Hor as [Hor|Hor]; rewrite Hor; cbn [andb is_nil negb]; rewrite ?andb_false_r; reflexivity.
 Qed.
 
 (** "leaving method and body untouched" *)
@@ -532,37 +573,37 @@ Qed.
 
 (** * the decoded path: no double encoding, whatever the configuration *)
 
-Theorem decoded_path_preserved b u :
+Theorem decoded_path_preserved f b u :
   match b_rw b with
   | Some rw =>
     let raw' := rw_add rw ++ strip_prefix (rw_cut rw) (escaped_path (u_path u) (u_rawpath u)) in
-    wellformed raw' = true -> unescape (wire_path (create_url b u)) = unescape raw'
-  | None => unescape (wire_path (create_url b u)) = Some (u_path u)
+    wellformed raw' = true -> unescape (wire_path (create_url_fx f b u)) = unescape raw'
+  | None => unescape (wire_path (create_url_fx f b u)) = Some (u_path u)
   end.
 Proof.
-  unfold create_url. destruct (b_rw b) as [rw|].
+  unfold create_url_fx. destruct (b_rw b) as [rw|].
   - cbv zeta. intro Hw.
     set (up := {| u_scheme := u_scheme u; u_host := b_host b; u_path := u_path u;
                   u_rawpath := u_rawpath u; u_query := u_query u |}).
-    pose proof (rewrite_decoded rw up) as H. cbv zeta in H. rewrite transform_path_eq in H.
+    pose proof (rewrite_decoded f rw up) as H. cbv zeta in H. rewrite transform_path_eq in H.
     apply H. exact Hw.
   - unfold wire_path. simpl. apply escaped_path_decodes.
 Qed.
 
 (** * the request line *)
 
-Lemma create_url_query b u :
-  u_query (create_url b u) =
-  match b_rw b with Some rw => remove_from (rw_strip_q rw) (u_query u) | None => u_query u end.
-Proof. unfold create_url. destruct (b_rw b); reflexivity. Qed.
+Lemma create_url_query f b u :
+  u_query (create_url_fx f b u) =
+  match b_rw b with Some rw => remove_from_fx f (rw_strip_q rw) (u_query u) | None => u_query u end.
+Proof. unfold create_url_fx. destruct (b_rw b); reflexivity. Qed.
 
-Lemma create_url_scheme b u :
-  u_scheme (create_url b u) =
+Lemma create_url_scheme f b u :
+  u_scheme (create_url_fx f b u) =
   match b_rw b with Some rw => if is_empty (rw_scheme rw) then u_scheme u else rw_scheme rw | None => u_scheme u end.
-Proof. unfold create_url. destruct (b_rw b); reflexivity. Qed.
+Proof. unfold create_url_fx. destruct (b_rw b); reflexivity. Qed.
 
 Lemma execute_create fx r u t : execute fx r u = Some t ->
-  exists u', t = create_url (r_backend r) u' /\ u_query u' = u_query u /\ u_scheme u' = u_scheme u /\
+  exists u', t = create_url_fx (fx_f1 fx) (r_backend r) u' /\ u_query u' = u_query u /\ u_scheme u' = u_scheme u /\
              u_path u' = u_path u /\
              u_rawpath u' = match r_setting r with On => "" | _ => u_rawpath u end.
 Proof.
@@ -586,7 +627,7 @@ Theorem request_line fx r u t : execute fx r u = Some t ->
   wire_uri t =
   (if is_empty (wire_path t) then "/" else wire_path t) ++
   (let q' := match b_rw (r_backend r) with
-             | Some rw => remove_from (rw_strip_q rw) (u_query u)
+             | Some rw => remove_from_fx (fx_f1 fx) (rw_strip_q rw) (u_query u)
              | None => u_query u
              end in
    if is_empty q' then "" else String "?" q').
@@ -594,14 +635,14 @@ Proof.
   intro H. destruct (execute_create _ _ _ _ H) as (u' & Ht & Hq & _). subst t.
   unfold wire_uri, request_uri, wire_path. rewrite create_url_query, Hq.
   destruct (b_rw (r_backend r)) as [rw|].
-  - destruct (is_empty (remove_from (rw_strip_q rw) (u_query u))); [rewrite append_nil_r|]; reflexivity.
+  - destruct (is_empty (remove_from_fx (fx_f1 fx) (rw_strip_q rw) (u_query u))); [rewrite append_nil_r|]; reflexivity.
   - destruct (is_empty (u_query u)); [rewrite append_nil_r|]; reflexivity.
 Qed.
 
 (** with nothing to remove the query is forwarded byte for byte *)
-Theorem query_untouched names q : names = [] \/ q = "" -> remove_from names q = q.
+Theorem query_untouched f names q : names = [] \/ q = "" -> remove_from_fx f names q = q.
 Proof.
-  intros [H|H]; subst; unfold remove_from.
+  intros [H|H]; subst; unfold remove_from_fx.
   - destruct (is_empty q); reflexivity.
   - reflexivity.
 Qed.
@@ -626,8 +667,8 @@ Definition forwarded_field (k : string) (o : outcome) : list string :=
 
 (** C15-F1: `a` is to be removed, the query has a broken escape elsewhere: `a` reaches the upstream *)
 Theorem F1_refuted : exists q pl r,
-  guard_F1 q r = true /\ spec_ok q pl r (serve pinned q pl r) = false /\
-  forwarded_uri (serve pinned q pl r) = "/x?a=1&b=%zz".
+  guard_F1 q r = true /\ spec_ok q pl r (serve current q pl r) = false /\
+  forwarded_uri (serve current q pl r) = "/x?a=1&b=%zz".
 Proof.
   exists (ex_req "GET" "/x" "a=1&b=%zz" [] false), no_pl, (ex_rule NoDecode (ex_rw "" "" ["a"])).
   vm_compute. splits; reflexivity.
@@ -635,8 +676,8 @@ Qed.
 
 (** C15-F2: PROPFIND arrives from a trusted peer with X-Forwarded-Method: GET; GET is forwarded *)
 Theorem F2_refuted : exists q pl r,
-  guard_F2 q = true /\ spec_ok q pl r (serve pinned q pl r) = false /\
-  q_method q = "PROPFIND" /\ forwarded_method (serve pinned q pl r) = "GET".
+  guard_F2 q = true /\ spec_ok q pl r (serve current q pl r) = false /\
+  q_method q = "PROPFIND" /\ forwarded_method (serve current q pl r) = "GET".
 Proof.
   exists (ex_req "PROPFIND" "/x" "" [("X-Forwarded-Method", "GET")] true), no_pl, (ex_rule Off None).
   vm_compute. splits; reflexivity.
@@ -644,8 +685,8 @@ Qed.
 
 (** C15-F3: under `on` an encoded semicolon is decoded on the way *)
 Theorem F3_refuted : exists q pl r,
-  guard_F3 q r = true /\ spec_ok q pl r (serve pinned q pl r) = false /\
-  forwarded_uri (serve pinned q pl r) = "/0%20/;users".
+  guard_F3 q r = true /\ spec_ok q pl r (serve current q pl r) = false /\
+  forwarded_uri (serve current q pl r) = "/0%20/;users".
 Proof.
   exists (ex_req "GET" "/0%20/%3Busers" "" [] false), no_pl, (ex_rule On None).
   vm_compute. splits; reflexivity.
@@ -653,8 +694,8 @@ Qed.
 
 (** C15-F4: the pipeline's Forwarded header is overwritten *)
 Theorem F4_refuted : exists q pl r,
-  guard_F4 q pl = true /\ spec_ok q pl r (serve pinned q pl r) = false /\
-  forwarded_field "Forwarded" (serve pinned q pl r) = ["for=127.0.0.2;host=h.example.com;proto=http"].
+  guard_F4 q pl = true /\ spec_ok q pl r (serve current q pl r) = false /\
+  forwarded_field "Forwarded" (serve current q pl r) = ["for=127.0.0.2;host=h.example.com;proto=http"].
 Proof.
   exists (ex_req "GET" "/x" "" [] false), {| p_headers := [("Forwarded", "v1")]; p_cookies := [] |}, (ex_rule Off None).
   vm_compute. splits; reflexivity.
@@ -662,10 +703,10 @@ Qed.
 
 (** C15-F5: a prefix with a blank re-encodes the whole path; one with a broken escape sends everything to / *)
 Theorem F5_refuted :
-  (exists q pl r, guard_F5 r = true /\ spec_ok q pl r (serve pinned q pl r) = false /\
-                  forwarded_uri (serve pinned q pl r) = "/a%20b/x;y") /\
-  (exists q pl r, guard_F5 r = true /\ spec_ok q pl r (serve pinned q pl r) = false /\
-                  forwarded_uri (serve pinned q pl r) = "/").
+  (exists q pl r, guard_F5 r = true /\ spec_ok q pl r (serve current q pl r) = false /\
+                  forwarded_uri (serve current q pl r) = "/a%20b/x;y") /\
+  (exists q pl r, guard_F5 r = true /\ spec_ok q pl r (serve current q pl r) = false /\
+                  forwarded_uri (serve current q pl r) = "/").
 Proof.
   split.
   - exists (ex_req "GET" "/x%3By" "" [] false), no_pl, (ex_rule NoDecode (ex_rw "" "/a b" [])).
@@ -693,10 +734,10 @@ Example nonvacuous :
   oracle_ok nv_req = true /\
   guard_F1 nv_req nv_rule = false /\ guard_F2 nv_req = false /\ guard_F3 nv_req nv_rule = false /\
   guard_F4 nv_req nv_pl = false /\ guard_F5 nv_rule = false /\
-  serve pinned nv_req nv_pl nv_rule =
+  serve current nv_req nv_pl nv_rule =
     Forwarded false "POST" "/up/v1%2Fx/%3Bq%41?b=%2F&c=" "up:8080"
       [("Accept", ["*/*"]); ("Accept-Encoding", ["gzip"]); ("Authorization", ["Bearer t"]);
        ("Cookie", ["c=1; sid=1"]); ("Forwarded", ["for=127.0.0.9;host=h.example.com;proto=http"]);
-       ("X-User", ["alice"])] "{""a"":1}" /\
-  spec_ok nv_req nv_pl nv_rule (serve pinned nv_req nv_pl nv_rule) = true.
+       ("X-User", ["alice"; "second"])] "{""a"":1}" /\
+  spec_ok nv_req nv_pl nv_rule (serve current nv_req nv_pl nv_rule) = true.
 Proof. vm_compute. splits; reflexivity. Qed.
